@@ -42,7 +42,8 @@ Record lbpconsts := mkLbp {
   key_dot : string;              (* env.infixOps["."] used for a dot symbol *)
   array_bp : Z;                  (* arrayOp.Bp *)
   array_led : ledk;              (* arrayOp.MunchLeft *)
-  sel_raw_max : nat              (* normalizeArraySelector: an index of at most this many tokens is not parsed *)
+  sel_raw_max : nat;             (* normalizeArraySelector: an index of at most this many tokens is not parsed *)
+  lbp_other : option Z           (* any other Sexp type (nil, char, uint64, ...): None = LeftBindingPower returns an error *)
 }.
 
 (* constants of lowerGoFor / lowerRangeFor read from the source *)
